@@ -141,6 +141,18 @@ Theorem C02_code_enter : forall fuel s h m h1 h2 b0 rest,
 Proof. exact enter_code. Qed.
 Print Assumptions C02_code_enter.
 
+(* UKVFile(path, mode) for mode r / a on an existing library: the new object is the never-opened handle h0, opened *)
+Theorem C02_code_init : forall fuel s m hh1 hh2 bb0 rest v1 v2 v0,
+  (List.length (file s) < fuel)%nat ->
+  file s = (mk_header hh1 hh2 bb0 ++ rest)%list -> List.length hh1 = 16%nat -> len hh2 < 65536 -> len bb0 < 4294967296 ->
+  lookup_env (locals s) "mode" = Some (VStr (mode_str m)) ->
+  lookup_env (locals s) "h1" = Some v1 -> lookup_env (locals s) "h2" = Some v2 -> lookup_env (locals s) "b0" = Some v0 ->
+  let '(s', o) := exec fuel init_prog s in
+  let '(f', h') := open_ (file s) h0 m in
+  file s' = f' /\ o = ONormal /\ Rep s' h'.
+Proof. exact init_code. Qed.
+Print Assumptions C02_code_init.
+
 (* ---- the effects of the code on the file, and the crash model of C03 ----
    [effects] lists, in program order, every write (with its position) and truncate a run performs; replaying them
    reproduces the file the run ends with, for every statement and every state. *)
